@@ -9,7 +9,7 @@ CLAIM = {
          "(every 1-cut and 2-cut position is covered by solver-driven forking, plus the 1-byte dribble and the controller's 2048-byte recv boundary); "
          "on every path z3 proves that exactly the message sequence is delivered, in order, once each, byte-identical, with nothing delivered early "
          "and an empty residual buffer at the end."
-         " Also: the controller side with its real handler tables across the end of the handshake (O5), a stream with an unsupported type and a failing handler on the switch side (O6), single reads completing 150-900 small messages (O7), and the switch side fed through the real IOWorker._do_recv with totals that are multiples of its 8192-byte read size.",
+         " Also: the controller side with its real handler tables across the end of the handshake (O5), a stream with an unsupported type and a failing handler on the switch side (O6), single reads completing 150-900 small messages (O7), and the switch side fed through the real IOWorker._do_recv with totals that are multiples of its 8192-byte read size. O3_big_last: a message longer than one recv() as the last message of a burst behind small ones.",
  'note': "Trusted: CPython, z3, symx proxies/shims, scripted sockets (props/env.py); controller-side handlers are recorders. Cut positions are "
          "concretised by forking (one path per position), contents stay symbolic. Bounded by stream length and number of cuts.",
 }
